@@ -41,7 +41,9 @@ LATEXES = ["\\mu", "T_\\text{x}", "r"]
 SUBSCRIPTS = ["1", "x", "max"]
 DIMKEYS = ["one", "length", "mass", "time", "temperature", "speed", "force"]
 ASSUMS: list[dict[str, bool]] = [{}, {}, {"positive": True}, {"real": True}, {"integer": True}, {"nonnegative": True},
-    {"integer": True, "positive": True}]
+    {"integer": True, "positive": True},
+    # False-valued facts (not re-derivable from True-valued ones): a clone must keep them too
+    {"zero": False}, {"real": False}, {"rational": False, "real": True}]
 FACTS = ("positive", "real", "integer", "nonnegative")
 QUNITS = ["meter", "kilometer", "kilogram", "second", "kelvin", "newton", "joule"]
 QVALUES = ["1", "3/2", "-2", "1000", "1/7"]
